@@ -84,7 +84,7 @@ def AllocPureEntries (es : List Entry) : Prop :=
   ∀ (N : NumOps) (call : CallFn N) (ρ : ExtOracle N) (k : Nat) (env : Env N) (t i : Nat) (σ0 σ : State N),
     StExt σ0 σ → σ0.tables[t]? = none → ∃ σ1, evalEntries call ρ k env t i es σ = .ok () σ1 ∧ StExt σ0 σ1
 
-theorem Heap.TotalPureEs.alloc {vs : List Expr} (h : Heap.TotalPureEs vs) : AllocPureEs vs := by
+theorem AllocPureEs.ofTotalPure {vs : List Expr} (h : Heap.TotalPureEs vs) : AllocPureEs vs := by
   intro N call ρ k env σ
   obtain ⟨ws, hw⟩ := h N call ρ k env σ
   exact ⟨ws, σ, hw, StExt.refl σ⟩
